@@ -919,7 +919,12 @@ func (interp *Interpreter) cfg(root *node, sc *scope, importPath, pkgName string
 				if lc.action == aRecv {
 					lc.gen = recv2
 					n.gen = nop
+				} else {
+					err = n.cfgErrorf("assignment mismatch: %d variables but 1 value", l)
 				}
+			case parenExpr:
+			default:
+				err = n.cfgErrorf("assignment mismatch: %d variables but 1 value", l)
 			}
 
 		case defineXStmt:
@@ -1474,6 +1479,9 @@ func (interp *Interpreter) cfg(root *node, sc *scope, importPath, pkgName string
 				} else {
 					n.findex = notInFrame
 				}
+			}
+			if err == nil && n.action != aConvert {
+				err = check.callValue(n)
 			}
 
 		case caseBody:
